@@ -6,6 +6,7 @@
    (byte-identical text required). *)
 From Coq Require Import List Bool NArith String.
 From PC Require Import Base.Result Model.Generic Model.Marker Model.MarkerAlg Proofs.MarkerProofs Proofs.MarkerAlgProofs Proofs.StringClass Proofs.ExtraClass.
+From PC Require Import Model.Pep440 Spec.Pep440Spec Model.VConstraint Proofs.DiffUnion Proofs.Closure Proofs.Pep440RoundTrip Proofs.ClauseText Proofs.ConstraintText Proofs.VersionClass.
 Import ListNotations.
 
 (* evaluation depends on the Boolean structure only *)
@@ -51,3 +52,12 @@ Theorem C13_normal_forms_string_extra_markers : forall E extras, e_extras E = So
   (forall r, cnf fuel st m = Ok r -> beval E r = beval E m /\ G (BR E) r) /\ (forall r, dnf fuel st m = Ok r -> beval E r = beval E m /\ G (BR E) r).
 Proof. exact both_normal_forms. Qed.
 Print Assumptions C13_normal_forms_string_extra_markers.
+
+(* ... and for markers that also hold comparison clauses of python_full_version (the class of C07_intersect_union_string_extra_version_markers) *)
+Theorem C13_normal_forms_string_extra_version_markers : forall E extras, e_extras E = Some extras ->
+  forall ev, printable ev = true -> lookup pfv (e_vars E) = Some (to_string ev) ->
+  forall B, mutual B -> (forall v, In v B -> normal v = true /\ pad_ok v = true /\ is_local v = false) -> regB B (reparsed ev) = true ->
+  forall fuel st m, G (AR E B) m ->
+  (forall r, cnf fuel st m = Ok r -> beval E r = beval E m /\ G (AR E B) r) /\ (forall r, dnf fuel st m = Ok r -> beval E r = beval E m /\ G (AR E B) r).
+Proof. exact all_normal_forms. Qed.
+Print Assumptions C13_normal_forms_string_extra_version_markers.
